@@ -299,7 +299,46 @@ struct DeHelper {
     on_none: Option<B>,
 }
 
+/// a body that starts `let x = <READ>;` and goes on to inspect `x` is read as if READ stood where `x` is inspected
+fn inline_read_let(stmts: &[syn::Stmt]) -> Option<Vec<syn::Stmt>> {
+    struct Sub {
+        name: String,
+        with: syn::Expr,
+        hits: usize,
+    }
+    impl syn::visit_mut::VisitMut for Sub {
+        fn visit_expr_mut(&mut self, e: &mut syn::Expr) {
+            if ident_of(e).as_deref() == Some(self.name.as_str()) {
+                *e = self.with.clone();
+                self.hits += 1;
+                return;
+            }
+            syn::visit_mut::visit_expr_mut(self, e);
+        }
+    }
+    if let Some(syn::Stmt::Local(l)) = stmts.first() {
+        if let Some((n, _, v)) = plain_let(l) {
+            if read_kind(v).as_deref() == Some("Option<String>") && stmts.len() >= 2 {
+                let mut rest: Vec<syn::Stmt> = stmts[1..].to_vec();
+                let mut s = Sub { name: n, with: v.clone(), hits: 0 };
+                for st in rest.iter_mut() {
+                    syn::visit_mut::VisitMut::visit_stmt_mut(&mut s, st);
+                }
+                if s.hits == 1 {
+                    return Some(rest);
+                }
+            }
+        }
+    }
+    None
+}
+
 fn de_helper(file: &str, name: &str, f: &syn::ItemFn) -> R<DeHelper> {
+    if let Some(rest) = inline_read_let(&f.block.stmts) {
+        let mut g = f.clone();
+        g.block.stmts = rest;
+        return de_helper(file, name, &g);
+    }
     let shape = "a body `match <READ> { Some(x) => .., None => .. }` / `if let Some(x) = <READ> { .. } else { .. }` / `let x = String::deserialize(d)?; ..` (see extract/src/helpers.rs)";
     let stmts = &f.block.stmts;
     // form 3: let x = String::deserialize(d)?; B
@@ -618,6 +657,34 @@ fn strip_refs(e: &syn::Expr) -> &syn::Expr {
 
 fn ser_helper(file: &str, name: &str, f: &syn::ItemFn) -> R<SerHelper> {
     let shape = "`if let Some(v) = opt { ser.serialize_str(&v.iter().map(|s| s.as_ref()).collect::<Vec<_>>().join(SEP)) } else { ser.serialize_none() }` or the same as a match";
+    // `let v = match opt { Some(v) => v, None => return <none branch> }; <some branch>`
+    if let Some(syn::Stmt::Local(l)) = f.block.stmts.first() {
+        if let Some((_, _, init)) = plain_let(l) {
+            if let syn::Expr::Match(m) = strip(init) {
+                let (mut passes, mut none_branch) = (false, None);
+                for a in &m.arms {
+                    if let Some(b) = pat_some(&a.pat) {
+                        passes = ident_of(strip(&a.body)).as_deref() == Some(b.as_str());
+                    } else if pat_is_none(&a.pat) {
+                        if let syn::Expr::Return(r) = strip(&a.body) {
+                            if let Some(x) = &r.expr {
+                                none_branch = Some(ser_branch(x).0);
+                            }
+                        }
+                    }
+                }
+                if let (true, Some(n), true) = (passes, none_branch, m.arms.len() == 2) {
+                    let then = syn::Expr::Block(syn::ExprBlock {
+                        attrs: vec![],
+                        label: None,
+                        block: syn::Block { brace_token: Default::default(), stmts: f.block.stmts[1..].to_vec() },
+                    });
+                    let (s, sep) = ser_branch(&then);
+                    return Ok(SerHelper { name: name.into(), on_some: s, sep, on_none: n });
+                }
+            }
+        }
+    }
     let body = match crate::mini::expr_body(&f.block) {
         Some(b) => b,
         None => return fail(file, name, shape),
